@@ -694,8 +694,17 @@ def c13_native(trials=400):
         tmax = tmin + rng.choice([2.0, 3.5, 5.0, 8.0])
         n += 1
         wit = dict(edges=list(G.edges()), nodes=nodes, seeds=seeds, tmin=tmin, tmax=tmax, unsorted_delay_lists=(trial % 3 == 0), silent_nodes=sorted(silent), short_period_nodes=sorted(short), trial=trial)
+        def joint_fxn(u, nbrs):
+            # the joint calling style: (node, its neighbours) -> ({neighbour: delay list}, duration); neighbours without attempts are omitted
+            k = calls.get(u, 0); calls[u] = k + 1
+            return ({v: list(delays(u, v, k)) for v in nbrs if delays(u, v, k)}, duration(u, k))
+        style = 'joint function' if trial % 2 else 'separate functions'
+        wit['calling_style'] = style
         try:
-            sim = EoN.fast_nonMarkov_SIS(G, trans_time_fxn=trans_time_fxn, rec_time_fxn=rec_time_fxn, initial_infecteds=seeds, tmin=tmin, tmax=tmax, return_full_data=True)
+            if trial % 2:
+                sim = EoN.fast_nonMarkov_SIS(G, trans_and_rec_time_fxn=joint_fxn, initial_infecteds=seeds, tmin=tmin, tmax=tmax, return_full_data=True)
+            else:
+                sim = EoN.fast_nonMarkov_SIS(G, trans_time_fxn=trans_time_fxn, rec_time_fxn=rec_time_fxn, initial_infecteds=seeds, tmin=tmin, tmax=tmax, return_full_data=True)
         except Exception as e:
             wit['observed'] = '%s: %s' % (type(e).__name__, e)
             return n, wit
